@@ -38,7 +38,7 @@ def failingClauses (l : Layout) (d : LayoutD) : List String :=
   (if alignedB l d then [] else ["aligned"]) ++ (if resetsB l d then [] else ["resets"]) ++
   (if enumsFitB l d then [] else ["enums"]) ++ (if computedTargetsB l d then [] else ["computed"]) ++
   (if regNamesB l d then [] else ["regnames"]) ++ (if findRegB d then [] else ["findreg"]) ++ (if fieldNamesB d then [] else ["fieldnames"]) ++
-  (if sealRegsB l then [] else ["seal"]) ++
+  (if sealRegsB l then [] else ["seal"]) ++ (if groupsB l d then [] else ["groups"]) ++
   (if l.kind == 6 && !fcbTableB Generated.RegLayouts.fcbSize Generated.RegLayouts.fcbTag l d then ["fcb"] else []) ++
   (if l.kind == 4 && !fcbTableB Generated.RegLayouts.bcaSize Generated.RegLayouts.bcaTag l d then ["bca"] else []) ++
   (if l.kind == 9 && !memcfgTableB l d then ["memcfg"] else [])
@@ -91,15 +91,15 @@ def namedCfgStr (n : NamedCfg) : String :=
 
 /-- get_config → names → find_reg/find_bitfield → load into the fresh state → values -/
 def cfgRoundtrip (l : Layout) (d : LayoutD) (vals : Vals) : String :=
-  match Regs.getConfig (toMeta d) (toFile l d vals) with
+  match Regs.getConfig (toMeta d) (toFileG l d vals) with
   | .error e => e.tag
   | .ok cfg => match nameCfg d cfg with
     | none => "unnameable"
     | some n => match resolveCfg d n with
       | none => "unresolved"
-      | some cfg' => match Regs.loadConfig (toMeta d) (toFile l d d.initVals) cfg' with
+      | some cfg' => match Regs.loadConfig (toMeta d) (toFileG l d d.initVals) cfg' with
         | .error e => e.tag
-        | .ok rf => "ok:" ++ natCsv (valuesOf rf)
+        | .ok rf => "ok:" ++ natCsv (valuesOfG rf)
 
 def stepLine (st : St) : List String → St × String
   | ["sel", i] => match parseNat i with
@@ -152,6 +152,9 @@ def stepLine (st : St) : List String → St × String
     | none => (st, "bad-op")
   | ["ow", vals] => (st, resLine natCsv (optionWords st.d.aux st.l (csvNat vals)))
   | ["init"] => (st, natCsv (initVals st.d))
+  | ["groups"] => (st, ";".intercalate (st.d.regs.zipIdx.filterMap (fun x =>
+      if x.1.subW == 0 then none
+      else some (natCsv ([x.2, x.1.subW, x.1.nsubs, (if x.1.revSubs then 1 else 0), (if x.1.reverse then 1 else 0), x.1.alts.length] ++ x.1.alts ++ x.1.subKeys)))))
   | ["enumval", ri, fi, v] => match parseNat ri, parseNat fi, parseNat v with
     | some ri, some fi, some v => (match st.d.regs[ri]? with
       | some rd => (match rd.fields[fi]? with
@@ -159,7 +162,7 @@ def stepLine (st : St) : List String → St × String
         | none => (st, "bad-index"))
       | none => (st, "bad-index"))
     | _, _, _ => (st, "bad-op")
-  | ["getcfg", vals] => match Regs.getConfig (toMeta st.d) (toFile st.l st.d (csvNat vals)) with
+  | ["getcfg", vals] => match Regs.getConfig (toMeta st.d) (toFileG st.l st.d (csvNat vals)) with
     | .error e => (st, e.tag)
     | .ok cfg => match nameCfg st.d cfg with
       | some n => (st, "ok:" ++ namedCfgStr n)
